@@ -24,7 +24,7 @@ E = enums.E
 META = {
     "technique": "hand model of the sensor stage over the c2lean-generated kernels (regenerated every run) + Lean 4 proofs over the reals (unfolding, case split, ring; list induction for the slice layout) + bitwise translation validation of the kernels + bitwise differential of the model against the unmodified static functions of engine_sensor.c on crafted mjModel/mjData views + property oracle on generated models (independent recomputation of every attached sensor from mjData primitives and Jacobian-API reference motions; poison values for unwritten entries)",
     "text": "Proved over the reals for all inputs about the model (tied bitwise to apply_cutoff / mj_computeSensor of the tree): apply_cutoff never changes the number of entries; for a positive cutoff and a non-exempt type every REAL entry becomes the clamp of the entry to [-c, c] (in range, identity on in-range entries, idempotent) and every POSITIVE entry becomes min(c, x) (<= c, identity below c); AXIS and QUATERNION data, the exempt types CONTACT and GEOMFROMTO, and every sensor with cutoff <= 0 are left untouched.  For every list of sensor dimensions the slices [adr_i, adr_i + dim_i) produced by the running-sum layout are pairwise disjoint, ordered, contained in [0, nsensordata) and every index below nsensordata lies in exactly one slice (they tile sensordata); nsensordata is the sum of the dimensions.  Frame sensors: FRAMEPOS with a reference frame equals R_ref^T (p - p_ref) and (for orthogonal R_ref) p = p_ref + R_ref * reading; FRAMEXAXIS/Y/Z with a reference equals R_ref^T times the object's axis, i.e. column k of R_ref^T R; FRAMEQUAT with a reference is conj(q_ref) * q, so q_ref * reading = q for a unit reference and its rotation matrix is R(q_ref)^T R(q); without a reference the readings are the global position / axis / quaternion; FRAMELINVEL / FRAMEANGVEL with a reference equal R_ref^T (v - v_ref - w_ref x (p - p_ref)) and R_ref^T (w - w_ref), and the linear one is the time derivative of the FRAMEPOS reading whenever dR_ref/dt = [w_ref]x R_ref (stated algebraically); mj_objectVelocity (site frame: velocimeter, gyro) is R^T (v_c + w x (p - c)), R^T w of the com-based spatial velocity; mj_objectAcceleration (accelerometer, framelinacc) adds the w x v term to the transported spatial acceleration; force / torque sensors are R^T f and R^T (tau - (p - c) x f) of cfrc_int; objects welded to a dof-less body read zero velocity and acceleration.",
-    "note": "Stated over the reals (the differential is bitwise on doubles; the oracle uses tolerance 1e-9 x scale).  `_partial`: only the cutoff, layout, FRAME*, velocimeter, gyro, accelerometer, force and torque computations are modelled and proved; every other attached type (joint/tendon/actuator pos/vel/frc, limit pos/vel/frc, ball quat/angvel, touch, subtree com/linvel/angmom, magnetometer, clock, kinetic/potential energy, insidesite, user sensors with every datatype) is decided by the oracle only, as are the values of cacc / cfrc_int themselves (mj_rnePostConstraint is not modelled: the accelerometer oracle compares with J qacc + Jdot qvel - g through the Jacobian API, force/torque with cfrc_int).  TWO GENUINE DEFECTS of the tree are reported by the oracle under stable keys: (1) c28:E_KINETIC:value -- mjSENS_E_KINETIC is a POSITION-stage sensor guarded by d->flg_energyvel, but that flag is only cleared by mj_fwdVelocity, which runs AFTER mj_sensorPos; with mjENBL_ENERGY set the flag is still 1 from the previous evaluation, so the sensor returns the kinetic energy of the PREVIOUS mj_forward / mj_step (one-step lag; after qvel is changed from 0 it reads 0) and repeating mj_forward on the same state changes the reading; (2) c28:accelerometer:static-body-reads-zero -- mj_objectAcceleration returns zero for every object welded to a dof-less body (world, static, mocap), so an accelerometer mounted there reads (0,0,0) although the documentation says it measures the linear acceleration of the site *including gravity* (a resting accelerometer reads -g; the model-side counterpart is theorem static_body_zero_motion).  FRAMELINACC documents no gravity term at all, so both 0 and -g are accepted for it on such bodies.  Every 9th oracle model is a directed touch scene (contact point outside the zone, normal ray through it) so that the re-projection rule of the touch sensor is exercised in both body orders.  Every built-in sensor is also recomputed through the public mj_computeSensor into a canary-guarded buffer (a sensor of dimension d must write exactly d entries).  Not attached / not checked: rangefinder, camprojection, geomdist/normal/fromto, contact, tactile, plugin sensors, sensor history (delay / interval).  get_xpos_xmat / get_xquat array selection is part of the model and of the differential.  The enumerator numerals never appear in Lean: op lines carry names (read by the model) and the header values (read by the C side), both derived from the tree's headers by this module.",
+    "note": "Stated over the reals (the differential is bitwise on doubles; the oracle uses tolerance 1e-9 x scale).  `_partial`: only the cutoff, layout, FRAME*, velocimeter, gyro, accelerometer, force and torque computations are modelled and proved; every other attached type (joint/tendon/actuator pos/vel/frc, limit pos/vel/frc, ball quat/angvel, touch, subtree com/linvel/angmom, magnetometer, clock, kinetic/potential energy, insidesite, user sensors with every datatype) is decided by the oracle only, as are the values of cacc / cfrc_int themselves (mj_rnePostConstraint is not modelled: the accelerometer oracle compares with J qacc + Jdot qvel - g through the Jacobian API, force/torque with cfrc_int).  TWO GENUINE DEFECTS of the tree (recorded as known findings) are reported by the oracle under stable keys, each assigned only when the specific signature is observed (E_KINETIC: energy flag set, first forward = kinetic energy of the previous evaluation, second forward = correct value; accelerometer: dof-less body and a reading of exactly zero) -- any other wrong reading of the same sensor types is reported as c28:E_KINETIC:wrong-value / c28:E_KINETIC:not-a-function-of-the-state / c28:ACCELEROMETER:value: (1) c28:E_KINETIC:value -- mjSENS_E_KINETIC is a POSITION-stage sensor guarded by d->flg_energyvel, but that flag is only cleared by mj_fwdVelocity, which runs AFTER mj_sensorPos; with mjENBL_ENERGY set the flag is still 1 from the previous evaluation, so the sensor returns the kinetic energy of the PREVIOUS mj_forward / mj_step (one-step lag; after qvel is changed from 0 it reads 0) and repeating mj_forward on the same state changes the reading; (2) c28:accelerometer:static-body-reads-zero -- mj_objectAcceleration returns zero for every object welded to a dof-less body (world, static, mocap), so an accelerometer mounted there reads (0,0,0) although the documentation says it measures the linear acceleration of the site *including gravity* (a resting accelerometer reads -g; the model-side counterpart is theorem static_body_zero_motion).  FRAMELINACC documents no gravity term at all, so both 0 and -g are accepted for it on such bodies.  Every 9th oracle model is a directed touch scene (contact point outside the zone, normal ray through it) so that the re-projection rule of the touch sensor is exercised in both body orders.  Every built-in sensor is also recomputed through the public mj_computeSensor into a canary-guarded buffer (a sensor of dimension d must write exactly d entries).  Not attached / not checked: rangefinder, camprojection, geomdist/normal/fromto, contact, tactile, plugin sensors, sensor history (delay / interval).  get_xpos_xmat / get_xquat array selection is part of the model and of the differential.  The enumerator numerals never appear in Lean: op lines carry names (read by the model) and the header values (read by the C side), both derived from the tree's headers by this module.",
 }
 
 P = "MjProof.C28."
@@ -626,8 +626,13 @@ def subtree_bodies(A, root):
     return out
 
 
-def judge(scene, rec, uservals, dev):
-    """returns a list of (key, what, detail) failures for one evaluated state, from the harness output alone"""
+KNOWN_E_KINETIC = "c28:E_KINETIC:value"
+KNOWN_ACCEL_STATIC = "c28:accelerometer:static-body-reads-zero"
+
+
+def judge(scene, rec, uservals, dev, prev_kinetic=None):
+    """returns a list of (key, what, detail) failures for one evaluated state, from the harness output alone.
+    prev_kinetic: 1/2 v'Mv of the state evaluated just before this one on the same mjData (None for the first state)"""
     fails = []
     A = rec["arr"]
     sa, sb = A["sensordata_a"], A["sensordata_b"]
@@ -665,9 +670,23 @@ def judge(scene, rec, uservals, dev):
                 fails.append(("c28:%s:unwritten-entry" % t, "a sensor entry keeps the previous content of sensordata (entry not written)",
                               {"sensor": s, "spec": spec, "run_a": got, "run_b": got_b}))
             else:
-                fails.append(("c28:%s:value" % t, "the reading changes when mj_forward is repeated on the same state: it is not a function "
-                              "of the state (stale quantity from the previous evaluation)",
-                              {"sensor": s, "spec": spec, "first_forward": got, "second_forward": got_b, "enableflags": A["opt.flags"][1]}))
+                key = "c28:%s:not-a-function-of-the-state" % t
+                what = "the reading changes when mj_forward is repeated on the same state"
+                if t == "E_KINETIC":
+                    # KNOWN FINDING, kept narrow: energy flag set, the first forward returns exactly the kinetic energy of the
+                    # PREVIOUS evaluation and the second forward returns the kinetic energy of this state.  Any other way of
+                    # being wrong keeps its own key.
+                    ke = A.get("ref_kinetic", [0.0])
+                    sc = max(1.0, abs(ke[0]), abs(prev_kinetic or 0.0))
+                    cutk = lambda v: apply_cutoff(v, s["cutoff"], s["datatype"], t)
+                    if (A["opt.flags"][1] & E("mjENBL_ENERGY")) and prev_kinetic is not None and \
+                            maxdiff(got, cutk([prev_kinetic])) <= TOL * sc and maxdiff(got_b, cutk(ke)) <= TOL * sc:
+                        key = KNOWN_E_KINETIC
+                        what = ("with mjENBL_ENERGY the e_kinetic sensor (position stage, guarded by flg_energyvel which only "
+                                "mj_fwdVelocity clears) returns the kinetic energy of the previous evaluation; repeating mj_forward "
+                                "gives the right value")
+                fails.append((key, what, {"sensor": s, "spec": spec, "first_forward": got, "second_forward": got_b,
+                                          "previous_kinetic_energy": prev_kinetic, "enableflags": A["opt.flags"][1]}))
             continue
         exp, scale, skip = None, 1.0, False
         oid, rid = s["objid"], s["refid"]
@@ -676,7 +695,7 @@ def judge(scene, rec, uservals, dev):
             fails.append(("c28:%s:out-of-slice-write" % t, "mj_computeSensor wrote beyond the sensor's own sensor_dim entries",
                           {"sensor": s, "spec": spec}))
         if rc and not rc[1] and s["cutoff"] <= 0:
-            fails.append(("c28:%s:value" % t, "sensordata after mj_forward differs from mj_computeSensor on the same state",
+            fails.append(("c28:%s:%s" % (t, "wrong-value" if t == "E_KINETIC" else "value"), "sensordata after mj_forward differs from mj_computeSensor on the same state",
                           {"sensor": s, "spec": spec, "sensordata": got}))
 
         def chk(key, a, b, allowed, what, extra=None):
@@ -852,8 +871,9 @@ def judge(scene, rec, uservals, dev):
                     # documents no gravity term at all, so 0 and -g are both accepted there.
                     if t == "FRAMELINACC" and maxdiff(got, cut([0.0] * 3)) <= TOL:
                         exp = [0.0] * 3
-                    elif t == "ACCELEROMETER" and norm(g) > 0 and maxdiff(got, cut(exp)) > TOL * scale:
-                        fails.append(("c28:accelerometer:static-body-reads-zero",
+                    elif t == "ACCELEROMETER" and norm(g) > 0 and maxdiff(got, cut(exp)) > TOL * scale and all(x == 0.0 for x in got):
+                        # KNOWN FINDING, kept narrow: the reading is exactly zero; any other wrong value keeps ACCELEROMETER:value
+                        fails.append((KNOWN_ACCEL_STATIC,
                                       "an accelerometer on a body welded to the world does not read -gravity in the site frame",
                                       {"sensor": s, "spec": spec, "got": got, "expected": cut(exp), "gravity": g}))
                         skip = True
@@ -950,7 +970,7 @@ def judge(scene, rec, uservals, dev):
         if len(got) != len(exp):
             fails.append(("c28:%s:dim" % t, "sensor dimension differs from the documented one", {"sensor": s, "expected_dim": len(exp)}))
             continue
-        chk("value", got, cut(exp), TOL * scale, "sensor reading differs from its documented quantity")
+        chk("wrong-value" if t == "E_KINETIC" else "value", got, cut(exp), TOL * scale, "sensor reading differs from its documented quantity")
         # cutoff: documented clamp must hold on the raw reading as well
         if s["cutoff"] > 0 and t not in ("CONTACT", "GEOMFROMTO"):
             if s["datatype"] == E("mjDATATYPE_REAL") and any(abs(x) > s["cutoff"] for x in got):
@@ -991,14 +1011,17 @@ def run_models(ctx, impl, nmodels, nstates, dev, hist, max_report=8):
             ctx.extra.setdefault("rejected_models", []).append((out[0] if out else "")[:200])
             continue
         pos = 1
+        prev_ke = None
         for sl, uv in sts:
             pos += len(sl)
             rec, pos = parse_eval(out, pos)
             if rec["error"]:
                 hist["eval-error"] = hist.get("eval-error", 0) + 1
                 ctx.extra.setdefault("eval_errors", []).append(rec["error"][:200])
+                prev_ke = None
                 continue
-            fs = judge(scene, rec, uv, dev)
+            fs = judge(scene, rec, uv, dev, prev_ke)
+            prev_ke = rec["arr"].get("ref_kinetic", [0.0])[0]
             for s in scene.sensors:
                 tg = s["type"] + ("+ref" if s["reftype"] else "") + (":cutoff" if s["cutoff"] else "")
                 hist[tg] = hist.get(tg, 0) + 1
